@@ -337,9 +337,9 @@ pub fn check_module(m: &PModule, info: &mut CaseInfo, disagreements: &std::sync:
 /// Real-world pytest files available offline (false-alarm guard).
 pub fn corpus_files(limit: usize) -> Vec<PathBuf> {
     let mut out = Vec::new();
-    let roots = ["/repo/tests/test_project", "/opt/veriftools/pyvenv/lib/python3.11/site-packages/numpy", "/opt/veriftools/pyvenv/lib/python3.11/site-packages/networkx", "/opt/veriftools/pyvenv/lib/python3.11/site-packages/scipy", "/opt/veriftools/pyvenv/lib/python3.11/site-packages/sympy"];
+    let roots = ["/repo/tests/test_project", "/opt/veriftools/pyvenv/lib/python3.11/site-packages/numpy", "/opt/veriftools/pyvenv/lib/python3.11/site-packages/networkx", "/opt/veriftools/pyvenv/lib/python3.11/site-packages/scipy", "/opt/veriftools/pyvenv/lib/python3.11/site-packages/sympy", "/opt/veriftools/pyvenv/lib/python3.11/site-packages", "/root/miniconda/pkgs", "/root/miniconda/lib/python3.13/site-packages"];
     fn walk(d: &Path, out: &mut Vec<PathBuf>, depth: usize) {
-        if depth > 8 {
+        if depth > 12 {
             return;
         }
         let Ok(rd) = std::fs::read_dir(d) else { return };
@@ -358,6 +358,9 @@ pub fn corpus_files(limit: usize) -> Vec<PathBuf> {
     for r in roots {
         walk(Path::new(r), &mut out, 0);
     }
+    // the first roots are contained in later ones: keep the first occurrence of every file
+    let mut seen = std::collections::BTreeSet::new();
+    out.retain(|p| seen.insert(p.clone()));
     out.truncate(limit);
     out
 }
